@@ -228,6 +228,10 @@ class ClimatologyCheck(Case):
 
             c.add_fact("fold-base", lambda i: alg.eq(_FOLD(z3.IntVal(0), alg.lift(i)), U))
             cfg._members = CutSeq(e.K, element, cut)
+        elif e.mode == "real" and e.mk.values.get("cfg_as") == "dicts":
+            # the configuration in its documented list-of-dicts form (real run only; the model keeps the object
+            # form): ClimatologyConfig.convert and the member loop are composed by the code itself
+            return mod.climatology_test([self._real_dict(m) for m in e.members], e.x, e.t, e.z)
         else:
             cfg._members = [MemberView((m["period"], "zlo" in m, "flo" in m), conc=m).build(mod) if e.mode == "conc" else self._real_member(mod, m) for m in e.members]
         # frame of the parameter object: the configuration's attributes (and the containers they hold) are
@@ -245,6 +249,22 @@ class ClimatologyCheck(Case):
 
             cur().notes.append(("frame-write", what))
         return out
+
+    @staticmethod
+    def _real_dict(m):
+        import pandas as pd
+
+        d = {"vspan": (float(m["vlo"]), float(m["vhi"]))}
+        if m["period"] is None:
+            d["tspan"] = (pd.Timestamp(int(m["tlo"]) * 10**9), pd.Timestamp(int(m["thi"]) * 10**9))
+        else:
+            d["tspan"] = (float(m["tlo"]), float(m["thi"]))
+            d["period"] = m["period"]
+        if "flo" in m:
+            d["fspan"] = (float(m["flo"]), float(m["fhi"]))
+        if "zlo" in m:
+            d["zspan"] = [float(m["zlo"]), float(m["zhi"])]
+        return d
 
     def _real_member(self, mod, m):
         import numpy as np
@@ -336,6 +356,10 @@ class ClimatologyCheck(Case):
         inter = [dict(member(days[1], days[3], hz=False, hf=False), vlo=0, vhi=1), dict(member(days[1], days[3], hz=False, hf=False, period=q), vlo=-5, vhi=-1), dict(member(days[1], days[3], hz=False, hf=False), vlo=2, vhi=5)]
         for order in (inter, inter[::-1], [inter[1], inter[0], inter[1]]):
             yield {"n": 3, "x": [-2, H, 3], "z": [5, 5, 5], "t": [days[2]] * 3, "members": [dict(m_) for m_ in order], "keep": 1}
+            yield {"n": 3, "x": [-2, H, 3], "z": [5, 5, 5], "t": [days[2]] * 3, "members": [dict(m_) for m_ in order], "cfg_as": "dicts", "keep": 1}
+        # the list-of-dicts form with members of the case's own shape next to one of another shape
+        for ms in confs[2:]:
+            yield {"n": 3, "x": [-2, H, 3], "z": [5, 20, None], "t": [days[2], days[1], days[4]], "members": [dict(m_) if not (m_["period"] is None and m_["tlo"] > m_["thi"]) else dict(m_, tlo=m_["thi"], thi=m_["tlo"]) for m_ in ms], "cfg_as": "dicts", "keep": 1}
         # float32 values and depths sitting on span bounds that float32 cannot hold exactly
         import numpy as np
 
